@@ -58,7 +58,7 @@ var strPool = []string{"", "a", "hello world", "ünïcödé 日本", "a&b=c", "x
 func genBindA(r *rand.Rand) bindA {
 	a := bindA{Age: pick(r, []int{0, 1, -1, 42, -2147483648, 2147483647, 1 << 40}), Name: pick(r, strPool), OK: chance(r, 1, 2)}
 	for i, n := 0, r.IntN(4); i < n; i++ {
-		a.Tags = append(a.Tags, pick(r, strPool[1:]))
+		a.Tags = append(a.Tags, pick(r, strPool))
 	}
 	for i, n := 0, r.IntN(4); i < n; i++ {
 		a.Nums = append(a.Nums, pick(r, []int{0, 1, -1, 7, 1000000}))
